@@ -276,6 +276,47 @@ func buildStream(msize uint32, dotu bool, nmsg int, bad int) (setup [][]byte, st
 	return
 }
 
+// alignedStream places a message boundary exactly k bytes before the end of the first
+// 8*msize receive buffer (the setup frames were consumed from the same buffer), then goes on.
+func alignedStream(msize uint32, dotu bool, setupLen int, k int) (stream []byte, nframes int) {
+	target := 8*int(msize) - setupLen - k
+	tag := uint16(10)
+	add := func(m *gmsg) {
+		stream = append(stream, mkFrame(m, dotu, tag)...)
+		tag++
+		nframes++
+	}
+	for target-len(stream) > 2*int(msize) {
+		add(&gmsg{kind: go9p.Tstat, a: uint64(rng.Intn(2))})
+		if rng.Intn(2) == 0 {
+			add(&gmsg{kind: go9p.Twrite, a: 1, b: uint64(rng.Intn(100)), data: randBytes(rng.Intn(int(msize) - 24))})
+		}
+	}
+	// two writes that land exactly on the target
+	rest := target - len(stream)
+	first := rest / 2
+	if first < 23 {
+		first = 23
+	}
+	if first > int(msize) {
+		first = int(msize)
+	}
+	add(&gmsg{kind: go9p.Twrite, a: 1, b: 1, data: randBytes(first - 23)})
+	rest = target - len(stream)
+	for rest > int(msize) {
+		add(&gmsg{kind: go9p.Twrite, a: 1, b: 2, data: randBytes(int(msize) - 23 - 7)})
+		rest = target - len(stream)
+	}
+	if rest >= 23 {
+		add(&gmsg{kind: go9p.Twrite, a: 1, b: 3, data: randBytes(rest - 23)})
+	}
+	for i := 0; i < 12; i++ {
+		add(&gmsg{kind: go9p.Tstat, a: uint64(i % 2)})
+		add(&gmsg{kind: go9p.Twrite, a: 1, b: uint64(i), data: randBytes(rng.Intn(int(msize) - 24))})
+	}
+	return
+}
+
 func cut(stream []byte, points []int) [][]byte {
 	var segs [][]byte
 	prev := 0
@@ -295,7 +336,7 @@ type recvResult struct{ line string }
 
 func runRecvCase(msize uint32, dotu bool, setup [][]byte, stream []byte, segs [][]byte, nframes int, bad int) string {
 	ops := &recvOps{}
-	srv := &go9p.Srv{Msize: 1 << 16, Dotu: true, Id: "recv"}
+	srv := &go9p.Srv{Msize: msize, Dotu: true, Id: "recv"} // small from the start: the 8*msize buffer wraps
 	srv.Log = sharedLogger()
 	if !srv.Start(ops) {
 		panic("start")
@@ -321,17 +362,31 @@ func runRecvCase(msize uint32, dotu bool, setup [][]byte, stream []byte, segs []
 	nsetupRecs := len(ops.recs)
 	ops.mu.Unlock()
 	// the measured stream: segment i is offered when segment i-1 has been read completely
+	stalled := false
 	for _, s := range segs {
-		c.mu.Lock()
-		for len(c.segs) > 0 && !c.closed {
-			c.cond.Wait()
+		// wait (bounded) until the previous segment has been read completely
+		dl := time.Now().Add(2 * time.Second)
+		for {
+			c.mu.Lock()
+			busy := len(c.segs) > 0 && !c.closed
+			c.mu.Unlock()
+			if !busy {
+				break
+			}
+			if time.Now().After(dl) {
+				stalled = true
+				break
+			}
+			time.Sleep(20 * time.Microsecond)
 		}
-		c.mu.Unlock()
+		if stalled {
+			break
+		}
 		c.push(append([]byte{}, s...))
 	}
 	// wait for all replies, or for the connection to be dropped
-	deadline := time.Now().Add(5 * time.Second)
-	for time.Now().Before(deadline) {
+	deadline := time.Now().Add(3 * time.Second)
+	for time.Now().Before(deadline) && !stalled {
 		if c.isClosed() {
 			break
 		}
@@ -344,6 +399,9 @@ func runRecvCase(msize uint32, dotu bool, setup [][]byte, stream []byte, segs []
 	st := "open"
 	if c.isClosed() {
 		st = "closed"
+	}
+	if stalled || (bad == 0 && !c.isClosed() && len(c.frames())-nsetup < nframes) {
+		st = "stalled" // the server stopped reading or answering although the stream is valid
 	}
 	c.mu.Lock()
 	c.eof = true
@@ -440,6 +498,23 @@ func modeRecv(tier string, args []string) {
 		}
 		stat("recv.streams", 1)
 		stat("recv.stream_bytes", len(stream))
+	}
+	// message boundaries placed at every distance 0..8 from the end of the first receive buffer
+	for _, msize := range []uint32{64, 100, 128} {
+		for k := 0; k <= 8; k++ {
+			for _, dotu := range []bool{false, true} {
+				setup, _, _ := buildStream(msize, dotu, 0, 0)
+				sl := 0
+				for _, f := range setup {
+					sl += len(f)
+				}
+				stream, nframes := alignedStream(msize, dotu, sl, k)
+				for _, pts := range [][]int{nil, {len(stream) / 2}, {8*int(msize) - sl - k}, {8*int(msize) - sl}, {13, 200, 8*int(msize) - sl - k + 1}} {
+					jobs = append(jobs, job{msize, dotu, setup, stream, cut(stream, pts), nframes, 0})
+				}
+				stat("recv.aligned_streams", 1)
+			}
+		}
 	}
 	out := make([]string, len(jobs))
 	var wg sync.WaitGroup
